@@ -1,5 +1,5 @@
 """property id -> rules, explanation of what is / is not decided"""
-from rules import r_coord, r_keyid, r_opcode, r_doaction, r_cancel, r_idle, r_loop, r_traverse, r_repeat, r_chv2, r_wait, r_macro, r_seq
+from rules import r_coord, r_keyid, r_opcode, r_doaction, r_cancel, r_idle, r_loop, r_traverse, r_repeat, r_chv2, r_wait, r_macro, r_seq, r_override
 
 PROPS = {
     "C01": {
@@ -89,6 +89,15 @@ PROPS = {
                        "run time merges (right->left modifiers) carry equal modifier bits in the parser's encoding; "
                        "(R-SEQ-SUPPRESS) typed keys are pressed at the OS only in visible-backspaced mode / outside sequence mode.",
         "not_decided": "exactly-once firing, backtracking, timeout boundary, permutations of overlap groups — run-time values",
+    },
+    "C13": {
+        "rules": [r_override.run_all],
+        "explanation": "Narrow: (R-OVR-SCRATCH) in override_keys the scratch reset dominates every use of the scratch and the "
+                       "no-overrides early return precedes every mutation; (R-OVR-MODS) mask_for_key returns Some for exactly the "
+                       "keys OsCode::is_modifier accepts and the eight masks are distinct single bits; (R-OVR-BOTH) the tick path "
+                       "and the repeat path both run override_keys before any inspection of cur_keys/prev_keys; (R-OVR-RELEASE) "
+                       "release-on-activation erases keys taken from the override scratch only under the !is_modifier() guard.",
+        "not_decided": "longest-match selection, substitution and restoration — computations over run-time key lists",
     },
     "C14": {
         "rules": [r_traverse.run_repeat, r_repeat.run_outputs, r_repeat.run],
